@@ -6,7 +6,8 @@
   `RelRefine.StepGoal` says that an expressible operation whose precondition fails panics with
   SOME class and leaves the world unchanged.  Here the class is computed from the specification:
 
-  * `deadTgt`, `preKind`, `preKindP` — the pre-validation of the typed access paths
+  * `deadTgt`, `preKind`, `preKindP` — the pre-validation of the access paths (every path
+    since the repair of the `Unsafe` API, D24: `Unsafe` validates like `MapN`)
     (`preCheckMap` / `preCheckTyped`): the first relation, in the order given, whose target is
     dead (`deadTarget`), whose component is no relation component (`notRelation`) or is not
     among the mapper's components (`relNotInMask`); `preCheck_kind`;
@@ -32,7 +33,7 @@ namespace RelRefine
 
 open Refine (Comps keys sortedIds writeComps zeros Outcome outcome)
 
-/-! ## 1. the pre-validation of the typed access paths -/
+/-! ## 1. the pre-validation of the access paths -/
 
 /-- the result of a check that does not change the world -/
 def ofKind (w : World) : Option PanicKind → Res World Unit
@@ -56,7 +57,7 @@ def preKind (ss : SS) (m : Option Mask) : Rels → Option PanicKind
 /-- the pre-validation of the access path `p` (`ids` = the mapper's components) -/
 def preKindP (ss : SS) (p : Path) (ids : List Comp) (rels : Rels) : Option PanicKind :=
   match p with
-  | .unsafe_ => none
+  | .unsafe_ => preKind ss (some (Mask.ofList ids)) rels
   | .map1 => preKind ss none rels
   | .typed => preKind ss (some (Mask.ofList ids)) rels
 
@@ -149,13 +150,13 @@ theorem preCheckTyped_kind (H : HInv s fl) (m : Mask) : ∀ (rels : Rels), tgtsE
         · simp only [h3, Bool.false_eq_true, if_false, ofKind]
       · simp only [h2, Bool.false_eq_true, if_false, ofKind]
 
-/-- **the pre-validation of a typed access path, from the specification**: for targets the
+/-- **the pre-validation of an access path, from the specification**: for targets the
     client can name, `preCheck` passes or panics as `preKindP` says -/
 theorem preCheck_kind (H : HInv s fl) (p : Path) (ids : List Comp) {rels : Rels}
     (hx : tgtsExpr s rels = true) :
     preCheck p ids rels s.w = ofKind s.w (preKindP s.ss p ids rels) := by
   cases p with
-  | unsafe_ => rfl
+  | unsafe_ => exact H.preCheckTyped_kind (Mask.ofList ids) rels hx
   | map1 => exact H.preCheckMap_kind rels hx
   | typed => exact H.preCheckTyped_kind (Mask.ofList ids) rels hx
 
@@ -263,7 +264,11 @@ theorem scanKind_none (en : Entry) : ∀ (rels : Rels) (seen : List Comp),
         · simp only [hr, decide_false, if_true] at h; cases h
       · simp only [hk, decide_false, if_true] at h; cases h
 
-/-! ## 3. `SetRelations` naming a dead target, through `Unsafe` -/
+/-! ## 3. `World.setRelations` naming a dead target
+
+(Reached through `Unsafe` before the repair of the `Unsafe` API; now every path refuses a dead
+target in the pre-validation, and `exec_rej` no longer uses this section.  Kept: it is a fact
+about `setRelationsCore` as such.) -/
 
 /-- the check loop of `createTable` on relation components ends with `deadTarget` when it fails -/
 theorem relPanic_deadTarget (w : World) : ∀ (rels : List RelID),
@@ -334,7 +339,7 @@ theorem relGet_panic_kind {w : World} {a tid : Nat} {ts' : List Ent} (hR : RelIn
     have hlenA : (w.arch a).numRel ≤ (r0 :: rest).length := by
       rw [hAe, hnum, hall]; exact Nat.le_refl _
     have htotal : ∃ (r : Option Nat), getTable a (r0 :: rest) w = .ok r w := by
-      apply getTable_rel_total hrelA hlenA hcolA
+      apply getTable_rel_total hrelA hlenA hcolA (by rw [← hall]; exact colRels_comps_nodup hnd _ _)
       intro ts hf t ht
       rw [hAe] at hf
       have hact := ((hR.rinv a A hA).listed (by rw [← i2]; exact c2) hf ht).1
@@ -378,7 +383,7 @@ theorem relGet_panic_kind {w : World} {a tid : Nat} {ts' : List Ent} (hR : RelIn
 
 /-- **rejection with its class**: `setRelations` naming a dead target — on relation components the
     live entity has, none twice — is refused with `deadTarget` and the world unchanged (so also
-    through `Unsafe`, which does not pre-validate) -/
+    when the pre-validation is bypassed) -/
 theorem setRelationsCore_deadTarget_kind (run : ProbeRunner) {w : World} {fl : List Nat}
     (h : TInv w fl)
     (hl : w.isLocked = false) {e : Ent} (h2 : 2 ≤ e.id) (hnf : e.id ∉ fl) (ha : w.alive e = true)
@@ -481,24 +486,30 @@ theorem setRelationsCore_deadTarget_kind (run : ProbeRunner) {w : World} {fl : L
 
 /-! ## 4. the panic class of a rejected call -/
 
-/-- **the panic class of a rejected call**, from the specification alone.  The typed access
-    paths pre-validate the relations first (`preKindP`: a dead target, …); then: a full registry;
-    a duplicate in the list of a `new`; an unknown or dead handle; an empty list; a component
-    already present (or listed twice) / absent (or listed twice); for `SetRelations` the class
-    the scan reports (`scanKind`) and, last, a dead target (reached through `Unsafe` only). -/
+/-- **the panic class of a rejected call**, from the specification alone.  Every access path
+    pre-validates the relations first (`preKindP`: a dead target, a non-relation component, a
+    component not among the added ones; `Add` through `Path.addCheck`, `SetRelations` through
+    `Path.setRelCheck`) — `Add` through `Unsafe` / `Map` on a dead handle says `deadEntity` before
+    that —; then: a full registry; a duplicate in the list of a `new`; an unknown or dead handle;
+    an empty list; a component already present (or listed twice) / absent (or listed twice); for
+    `SetRelations` the class the scan reports (`scanKind`; its default `deadTarget` is never
+    reached since the `Unsafe` path validates targets too). -/
 def rejKind (ss : SS) : Op → PanicKind
   | .reg _ _ _ => .registryFull
   | .new p ids _ rels => (preKindP ss p ids rels).getD .alreadyHas
   | .add p e ids _ rels =>
     match find ss.ents e with
-    | none => if p = .typed then (preKindP ss p ids rels).getD .deadEntity else .deadEntity
-    | some _ => (preKindP ss p ids rels).getD (if ids = [] then .noComponents else .alreadyHas)
+    | none =>
+      if p = .typed then (preKindP ss (p.addCheck ids) ids rels).getD .deadEntity else .deadEntity
+    | some _ =>
+      (preKindP ss (p.addCheck ids) ids rels).getD
+        (if ids = [] then .noComponents else .alreadyHas)
   | .rem _ e ids =>
     match find ss.ents e with
     | none => .deadEntity
     | some _ => if ids = [] then .noComponents else .missing
   | .setrel p e rels =>
-    (preKindP ss p (rels.map (·.comp)) rels).getD
+    (preKindP ss p.setRelCheck (rels.map (·.comp)) rels).getD
       (match find ss.ents e with
        | none => .deadEntity
        | some en => if rels = [] then .noRelations else (scanKind en [] rels).getD .deadTarget)
@@ -518,18 +529,88 @@ theorem ofKind_none {w : World} {o : Option PanicKind} {r : Res World Unit} (h :
 theorem ofKind_some {w : World} {o : Option PanicKind} {r : Res World Unit} {k : PanicKind}
     (h : r = ofKind w o) (ho : o = some k) : r = .panic k w := by rw [h, ho]; rfl
 
-/-- an expressible relation list that passes the pre-validation of a typed path, or goes
-    through `Unsafe`, names valid targets only -/
-theorem valid_of_pre_ok (H : HInv s fl) {p : Path} {ids : List Comp} {rels : Rels}
-    (hx : relsExpr s p rels = true)
-    (hv : ∀ (r : RelID), r ∈ rels → s.w.isRelComp r.comp = true ∧
-      (Mask.ofList ids).get r.comp = true)
-    (hok : preCheck p ids rels s.w = .ok () s.w) : TargetsValid s.ss.ents rels := by
-  apply Classical.byContradiction
-  intro hnv
-  obtain ⟨hp, hd⟩ := dead_of_invalid H hx hnv
-  rw [preCheck_deadTarget p hp ids s.w rels hv hd] at hok
-  cases hok
+
+/-- a relation list the pre-validation loop lets pass: no dead target, relation components only,
+    all among the mapper's components -/
+theorem preKind_none (ss : SS) (m : Option Mask) : ∀ (rels : Rels), preKind ss m rels = none →
+    ∀ r ∈ rels, deadTgt ss.ents r = false ∧ ss.isRel.getD r.comp false = true ∧
+      ∀ (mm : Mask), m = some mm → mm.get r.comp = true
+  | [], _ => fun _ hr => absurd hr List.not_mem_nil
+  | x :: rest, h => by
+    simp only [preKind] at h
+    by_cases h1 : deadTgt ss.ents x = true
+    · simp only [h1, if_true] at h; cases h
+    · simp only [h1, Bool.false_eq_true, if_false] at h
+      by_cases h2 : ss.isRel.getD x.comp false = true
+      · simp only [h2, if_true] at h
+        cases m with
+        | none =>
+          simp only [if_true] at h
+          have ih := preKind_none ss none rest h
+          intro r hr
+          rcases List.mem_cons.1 hr with rfl | hm
+          · exact ⟨by simpa using h1, h2, fun mm hmm => by cases hmm⟩
+          · exact ih r hm
+        | some m0 =>
+          simp only at h
+          by_cases h3 : m0.get x.comp = true
+          · simp only [h3, if_true] at h
+            have ih := preKind_none ss (some m0) rest h
+            intro r hr
+            rcases List.mem_cons.1 hr with rfl | hm
+            · refine ⟨by simpa using h1, h2, fun mm hmm => ?_⟩
+              cases hmm; exact h3
+            · exact ih r hm
+          · simp only [h3, Bool.false_eq_true, if_false] at h; cases h
+      · simp only [h2, Bool.false_eq_true, if_false] at h; cases h
+
+/-- **a relation list the pre-validation of path `p` lets pass** names valid targets and relation
+    components only, and — except through `Map`, which has no membership check — components
+    among `ids` -/
+theorem preKindP_none {ss : SS} {p : Path} {ids : List Comp} {rels : Rels}
+    (h : preKindP ss p ids rels = none) :
+    TargetsValid ss.ents rels ∧ (∀ r ∈ rels, ss.isRel.getD r.comp false = true) ∧
+      (p ≠ .map1 → ∀ r ∈ rels, r.comp ∈ ids) := by
+  have key : ∀ (m : Option Mask), preKind ss m rels = none →
+      TargetsValid ss.ents rels ∧ (∀ r ∈ rels, ss.isRel.getD r.comp false = true) ∧
+        ∀ (mm : Mask), m = some mm → ∀ r ∈ rels, mm.get r.comp = true := by
+    intro m hm
+    have a := preKind_none ss m rels hm
+    refine ⟨fun r hr => ?_, fun r hr => (a r hr).2.1, fun mm hmm r hr => (a r hr).2.2 mm hmm⟩
+    have hd := (a r hr).1
+    simp only [deadTgt] at hd
+    cases hz : r.target.isZero with
+    | true => exact Or.inl rfl
+    | false =>
+      cases hs : (find ss.ents r.target).isSome with
+      | true => exact Or.inr rfl
+      | false => simp [hz, hs] at hd
+  have inIds : ∀ r ∈ rels, (Mask.ofList ids).get r.comp = true → r.comp ∈ ids := by
+    intro r _ hg
+    rw [Mask.get_ofList] at hg
+    simp only [Bool.and_eq_true, decide_eq_true_eq] at hg
+    exact hg.2
+  cases p with
+  | map1 =>
+    obtain ⟨a, b, _⟩ := key none h
+    exact ⟨a, b, fun hp => absurd rfl hp⟩
+  | unsafe_ =>
+    obtain ⟨a, b, c⟩ := key (some (Mask.ofList ids)) h
+    exact ⟨a, b, fun _ r hr => inIds r hr (c _ rfl r hr)⟩
+  | typed =>
+    obtain ⟨a, b, c⟩ := key (some (Mask.ofList ids)) h
+    exact ⟨a, b, fun _ r hr => inIds r hr (c _ rfl r hr)⟩
+
+/-- … so a list the machine admits (`RelsStep`) that passes is well-formed (`RelsWF`) -/
+theorem wf_of_pre_ok {ss : SS} {p : Path} {ids : List Comp} {rels : Rels}
+    (hst : RelsStep ss.isRel p ids rels) (h : preKindP ss p ids rels = none) :
+    RelsWF ss.isRel ids rels ∧ TargetsValid ss.ents rels := by
+  obtain ⟨hv, hrel, hin⟩ := preKindP_none h
+  obtain ⟨hrnd, hmap, hrall⟩ := hst
+  refine ⟨⟨hrnd, fun r hr => ⟨?_, hrel r hr⟩, hrall⟩, hv⟩
+  by_cases hp : p = .map1
+  · exact hmap hp r hr
+  · exact hin hp r hr
 
 theorem rej_reg (H : HInv s fl) (size : Nat) (z ir : Bool) (hnp : ¬ pre s.ss (.reg size z ir)) :
     exec run s.w (.reg size z ir) = .panic (rejKind s.ss (.reg size z ir)) s.w := by
@@ -541,26 +622,21 @@ theorem rej_reg (H : HInv s fl) (size : Nat) (z ir : Bool) (hnp : ¬ pre s.ss (.
 theorem rej_new (H : HInv s fl) (p : Path) (ids : List Comp) (vals : Comps) (rels : Rels)
     (hg : guard s (.new p ids vals rels) = true) (hnp : ¬ pre s.ss (.new p ids vals rels)) :
     exec run s.w (.new p ids vals rels) = .panic (rejKind s.ss (.new p ids vals rels)) s.w := by
-  have hg' : ((∀ c ∈ ids, c < s.ss.zst.length) ∧ RelsWF s.ss.isRel ids rels) ∧
-      relsExpr s p rels = true := by
+  have hg' : ((∀ c ∈ ids, c < s.ss.zst.length) ∧ RelsStep s.ss.isRel p ids rels) ∧
+      tgtsExpr s rels = true := by
     simpa only [guard, Bool.and_eq_true, List.all_eq_true, decide_eq_true_eq] using hg
-  obtain ⟨⟨hreg, hwf⟩, hx⟩ := hg'
+  obtain ⟨⟨hreg, hst⟩, hx⟩ := hg'
   have hreg' : ∀ (c : Comp), c ∈ ids → c < s.w.kinds.length := by rw [← H.zlen]; exact hreg
   have hb256 : ∀ (c : Comp), c ∈ ids → c < 256 := fun c hc => H.reg256 (hreg' c hc)
-  obtain ⟨hrnd, hrin, hrall⟩ := hwf
-  have hin : ∀ (r : RelID), r ∈ rels → r.comp ∈ ids := fun r hr => (hrin r hr).1
-  have hrc : ∀ (r : RelID), r ∈ rels → s.w.isRelComp r.comp = true :=
-    fun r hr => by rw [← H.rget]; exact (hrin r hr).2
-  have hpk := H.preCheck_kind p ids (relsExpr_iff.mp hx).1
+  have hpk := H.preCheck_kind p ids hx
   cases hk : preKindP s.ss p ids rels with
   | some k =>
     have h1 := ofKind_some hpk hk
     simp only [exec, opNewEntity, bind, M.bind, h1, rejKind, hk, Option.getD_some]
   | none =>
     have h1 := ofKind_none hpk hk
-    have hv := valid_of_pre_ok H hx (fun r hr => ⟨hrc r hr, by
-      rw [Mask.get_ofList]; simp [hb256 r.comp (hin r hr), hin r hr]⟩) h1
-    have hnd : ¬ ids.Nodup := fun hnd => hnp ⟨hnd, hreg, ⟨hrnd, hrin, hrall⟩, hv⟩
+    obtain ⟨hwf, hv⟩ := wf_of_pre_ok hst hk
+    have hnd : ¬ ids.Nodup := fun hnd => hnp ⟨hnd, hreg, hwf, hv⟩
     have hrej := findOrCreateTableAdd_reject' 0 Mask.empty ids rels s.w hb256 (fun hh => hnd hh.1)
     simp only [exec, opNewEntity, newEntityCore, h1, bind, M.bind, checkLocked_unlocked s.w H.unlocked,
       hrej, rejKind, hk, Option.getD_none]
@@ -568,17 +644,13 @@ theorem rej_new (H : HInv s fl) (p : Path) (ids : List Comp) (vals : Comps) (rel
 theorem rej_add (H : HInv s fl) (p : Path) (e : Ent) (ids : List Comp) (vals : Comps) (rels : Rels)
     (hg : guard s (.add p e ids vals rels) = true) (hnp : ¬ pre s.ss (.add p e ids vals rels)) :
     exec run s.w (.add p e ids vals rels) = .panic (rejKind s.ss (.add p e ids vals rels)) s.w := by
-  have hg' : ((e ∈ s.issued ∧ ∀ c ∈ ids, c < s.ss.zst.length) ∧ RelsWF s.ss.isRel ids rels) ∧
-      relsExpr s p rels = true := by
+  have hg' : ((e ∈ s.issued ∧ ∀ c ∈ ids, c < s.ss.zst.length) ∧ RelsStep s.ss.isRel p ids rels) ∧
+      tgtsExpr s rels = true := by
     simpa only [guard, Bool.and_eq_true, List.all_eq_true, decide_eq_true_eq] using hg
-  obtain ⟨⟨⟨hi, hreg⟩, hwf⟩, hx⟩ := hg'
+  obtain ⟨⟨⟨hi, hreg⟩, hst⟩, hx⟩ := hg'
   have hreg' : ∀ (c : Comp), c ∈ ids → c < s.w.kinds.length := by rw [← H.zlen]; exact hreg
   have hb256 : ∀ (c : Comp), c ∈ ids → c < 256 := fun c hc => H.reg256 (hreg' c hc)
-  obtain ⟨hrnd, hrin, hrall⟩ := hwf
-  have hin : ∀ (r : RelID), r ∈ rels → r.comp ∈ ids := fun r hr => (hrin r hr).1
-  have hrc : ∀ (r : RelID), r ∈ rels → s.w.isRelComp r.comp = true :=
-    fun r hr => by rw [← H.rget]; exact (hrin r hr).2
-  have hpk := H.preCheck_kind p ids (relsExpr_iff.mp hx).1
+  have hpk := H.preCheck_kind (p.addCheck ids) ids hx
   have hal := H.alive_eq_find hi
   cases hf : find s.ss.ents e with
   | none =>
@@ -586,22 +658,18 @@ theorem rej_add (H : HInv s fl) (p : Path) (e : Ent) (ids : List Comp) (vals : C
     have hcore := addCore_dead s.w H.unlocked e ha ids rels
     by_cases hp : p = .typed
     · subst hp
-      cases hk : preKindP s.ss .typed ids rels with
+      cases hk : preKindP s.ss (Path.typed.addCheck ids) ids rels with
       | some k =>
         have h1 := ofKind_some hpk hk
         simp [exec, opAdd, bind, M.bind, h1, rejKind, hf, hk]
       | none =>
         have h1 := ofKind_none hpk hk
         simp [exec, opAdd, bind, M.bind, h1, hcore, rejKind, hf, hk]
-    · have hop : opAdd run p e ids vals rels s.w = .panic .deadEntity s.w := by
-        cases p with
-        | typed => exact absurd rfl hp
-        | unsafe_ => simp [opAdd, bind, M.bind, M.get, M.assert, ha]
-        | map1 => simp [opAdd, bind, M.bind, M.get, M.assert, ha]
+    · have hop := opAdd_dead_first run p hp e ids vals rels s.w ha
       simp only [exec, hop, rejKind, hf, if_neg hp]
   | some en =>
     have ha : s.w.alive e = true := by rw [hal, hf]; rfl
-    cases hk : preKindP s.ss p ids rels with
+    cases hk : preKindP s.ss (p.addCheck ids) ids rels with
     | some k =>
       have h1 := ofKind_some hpk hk
       have hop : opAdd run p e ids vals rels s.w = .panic k s.w := by
@@ -609,15 +677,11 @@ theorem rej_add (H : HInv s fl) (p : Path) (e : Ent) (ids : List Comp) (vals : C
       simp only [exec, hop, rejKind, hf, hk, Option.getD_some]
     | none =>
       have h1 := ofKind_none hpk hk
-      have hv := valid_of_pre_ok H hx (fun r hr => ⟨hrc r hr, by
-        rw [Mask.get_ofList]; simp [hb256 r.comp (hin r hr), hin r hr]⟩) h1
       have hm := find_some_mem hf
       obtain ⟨_, _, h2, hnf, _, hsl⟩ := H.live_facts hm
       have ok := H.ok e en hm
       have hmask : ∀ (c : Comp), (s.w.maskOf e).get c = true ↔ c ∈ keys en.comps := fun c => by
         rw [H.tinv.mask_iff_comps h2 hnf ha (Pool.lt_of_slot hsl) ok.comps c, H.comps_iff hm c]
-      have hv1 : ¬ (ids ≠ [] ∧ ids.Nodup ∧ ∀ c ∈ ids, c < s.ss.zst.length ∧ c ∉ keys en.comps) :=
-        fun hh => hnp ⟨en, hf, hh, ⟨hrnd, hrin, hrall⟩, hv⟩
       have hcore : addCore e ids rels s.w =
           .panic (if ids = [] then .noComponents else .alreadyHas) s.w := by
         by_cases hne : ids = []
@@ -625,10 +689,12 @@ theorem rej_add (H : HInv s fl) (p : Path) (e : Ent) (ids : List Comp) (vals : C
           rw [if_pos rfl]
           exact addCore_noComponents s.w H.unlocked e ha rels
         · rw [if_neg hne]
+          rw [Path.addCheck_of_ne_nil p hne] at hk
+          obtain ⟨hwf, hv⟩ := wf_of_pre_ok hst hk
           refine addCore_alreadyHas e ids rels s.w H.unlocked ha hne hb256 ?_
           rintro ⟨hnd, hnew⟩
-          refine hv1 ⟨hne, hnd, fun c hc => ⟨hreg c hc, fun hk => ?_⟩⟩
-          have := (hmask c).mpr hk
+          refine hnp ⟨en, hf, ⟨hne, hnd, fun c hc => ⟨hreg c hc, fun hk' => ?_⟩⟩, hwf, hv⟩
+          have := (hmask c).mpr hk'
           rw [hnew c hc] at this; cases this
       have hop : opAdd run p e ids vals rels s.w =
           .panic (if ids = [] then .noComponents else .alreadyHas) s.w := by
@@ -703,14 +769,15 @@ theorem rej_setrel (H : HInv s fl) (p : Path) (e : Ent) (rels : Rels)
   have hg' : e ∈ s.issued ∧ tgtsExpr s rels = true := by
     simpa only [guard, Bool.and_eq_true, decide_eq_true_eq] using hg
   obtain ⟨hi, hx⟩ := hg'
-  have hpk := H.preCheck_kind p (rels.map (·.comp)) hx
+  have hpk := H.preCheck_kind p.setRelCheck (rels.map (·.comp)) hx
   have hal := H.alive_eq_find hi
-  cases hk : preKindP s.ss p (rels.map (·.comp)) rels with
+  cases hk : preKindP s.ss p.setRelCheck (rels.map (·.comp)) rels with
   | some k =>
     have h1 := ofKind_some hpk hk
     simp only [exec, opSetRelations, bind, M.bind, h1, rejKind, hk, Option.getD_some]
   | none =>
     have h1 := ofKind_none hpk hk
+    have hv : TargetsValid s.ss.ents rels := (preKindP_none hk).1
     have hcore : ∀ {k : PanicKind}, setRelationsCore run e rels s.w = .panic k s.w →
         exec run s.w (.setrel p e rels) = .panic k s.w := by
       intro k hc
@@ -756,13 +823,7 @@ theorem rej_setrel (H : HInv s fl) (p : Path) (e : Ent) (rels : Rels)
           simp only [rejKind, hk, hf, Option.getD_none, if_neg hne, hsk, Option.getD_some]
         | none =>
           obtain ⟨hrnd, _, hhas⟩ := scanKind_none en rels [] hsk
-          have hv : ¬ TargetsValid s.ss.ents rels := fun hv => hnp ⟨en, hf, hne, hrnd, hhas, hv⟩
-          have hhas' : ∀ (r : RelID), r ∈ rels → (targetOf s.w e.id r.comp).isSome = true :=
-            fun r hr => (H.target_isSome_iff hm r.comp).mpr (hhas r hr)
-          have hd := dead_of_invalid' H hx hv
-          rw [hcore (setRelationsCore_deadTarget_kind run H.tinv H.unlocked h2 hnf ha hsl hemp hrnd
-            hhas' hd)]
-          simp only [rejKind, hk, hf, Option.getD_none, if_neg hne, hsk]
+          exact absurd ⟨en, hf, hne, hrnd, hhas, hv⟩ hnp
 
 end Rej
 
